@@ -97,7 +97,10 @@ def make_decor(sc, rng):
                 if dev and g == "on" and t["ev"] == [dev[0]]:
                     continue
                 cbs.append([j, g, list(t[g][-1])])
-        if t["cond"] and tuple(t["cond"][-1][0]) in sole and rng.random() < 0.5:
+        # (a decorated guard is evaluated after the keyword ones: keep the evaluation order of the baseline,
+        # cond entries before unless entries, by decorating a cond only when there is no unless entry)
+        if (t["cond"] and tuple(t["cond"][-1][0]) in sole and rng.random() < 0.5
+                and (not t["cond"][-1][1] or all(b_ for _n, b_ in t["cond"]))):
             cbs.append([j, "cond" if t["cond"][-1][1] else "unless", list(t["cond"][-1][0])])
     return {"cbs": cbs, "event": dev}
 
@@ -130,7 +133,7 @@ def add_any(sc, rng):
     donors = [t for t in sc["trans"] if not t["int"]]
     if donors and rng.random() < 0.7:
         d = rng.choice(donors)
-        kw = {"int": False, "val": list(d["val"]), "cond": [[nm, (not b) if rng.random() < 0.5 else b] for nm, b in d["cond"]],
+        kw = {"int": False, "val": list(d["val"]), "cond": sorted([[nm, (not b) if rng.random() < 0.5 else b] for nm, b in d["cond"]], key=lambda nb: not nb[1]),
               "before": list(d["before"]), "on": list(d["on"]), "after": list(d["after"])}
     sc["any"] = {"tgt": x, "ev": e}
     for s in range(sc["n"]):
@@ -139,12 +142,14 @@ def add_any(sc, rng):
     return sc
 
 
-def render_any(sc):
-    """the same machine with the last group of transitions written as X.from_.any(...)"""
+def render_any(sc, inherit=False):
+    """the same machine with the last group of transitions written as X.from_.any(...); optionally
+    with the whole body in a base class the machine class inherits from"""
     n_any = sum(1 for s in range(sc["n"]) if s not in sc["finals"])
     v = copy.deepcopy(sc)
     v["trans"] = sc["trans"][:-n_any]
     v["any_render"] = copy.deepcopy(sc["trans"][-1])
+    v["inherit"] = inherit
     return eng.render_source(v)
 
 
@@ -197,20 +202,21 @@ def run_impl(sc):
                 bad.append([v, "structure differs: " + ", ".join(diff)])
             elif canon_obs(ov) != canon_obs(base):
                 bad.append([v, "behaviour differs"])
-        if sc.get("any"):
+        for inh in ((False, True) if sc.get("any") else ()):
+            label = "from_.any()" + (" in an inherited base class" if inh else "")
             try:
-                src = render_any(sc)
+                src = render_any(sc, inherit=inh)
                 ns3 = {}
                 exec(compile(src, "<c15a>", "exec"), ns3)  # noqa: S102
                 sa = structure(ns3["M"])
                 oa = run_source(sc, src)
                 nstyles += 1
                 if sa != sbase:
-                    bad.append(["from_.any()", "structure differs: " + ", ".join(k for k in sbase if sbase[k] != sa[k])])
+                    bad.append([label, "structure differs: " + ", ".join(k for k in sbase if sbase[k] != sa[k])])
                 elif canon_obs(oa) != canon_obs(base):
-                    bad.append(["from_.any()", "behaviour differs"])
+                    bad.append([label, "behaviour differs"])
             except Exception as e:  # noqa: BLE001
-                bad.append(["from_.any()", f"{type(e).__name__}: {e}"])
+                bad.append([label, f"{type(e).__name__}: {e}"])
     return {"base": base, "bad": bad[:6], "styles": nstyles}
 
 
